@@ -127,9 +127,16 @@ def ulzGo : List Nat → Bool → Nat → Nat
 def ulz (a : List Nat) : Nat := ulzGo a.reverse true 0
 /-- `UnsatInt::bits`. -/
 def ubits (a : List Nat) : Nat := a.length * LB - ulz a
-/-- `BoxedUnsatInt::leading_zeros`: `for l in self.0.iter()` — visits the limbs from the LEAST
-    significant one (as written). -/
-def ulzBoxed (a : List Nat) : Nat := ulzGo a true 0
+/-- `BoxedUnsatInt::leading_zeros` AS WRITTEN (src/modular/safegcd/boxed.rs): `for l in self.0.iter()` visits the
+    limbs from the LEAST significant one, and the flag update is `nonzero_limb_not_encountered &= !l.ct_eq(&0)`,
+    i.e. the flag stays set while the limbs are NON-zero and is cleared by the first ZERO limb (the fixed-width
+    twin clears it at the first non-zero limb, going down from the top).  So the result is the sum of the
+    62-bit leading-zero counts of the low limbs up to and including the first zero limb — not the number of
+    leading zeros of the value (observed through `verif_hooks::safegcd_boxed::unsat_leading_zeros`). -/
+def ulzGoBoxed : List Nat → Bool → Nat → Nat
+  | [], _, c => c
+  | l :: ls, flag, c => ulzGoBoxed ls (flag && l != 0) (c + if flag then lz64 l - 2 else 0)
+def ulzBoxed (a : List Nat) : Nat := ulzGoBoxed a true 0
 def ubitsBoxed (a : List Nat) : Nat := a.length * LB - ulzBoxed a
 
 /-- two's-complement value of an unsaturated integer. -/
